@@ -574,7 +574,11 @@ func (e *Exec) arm(tm *timer, d time.Duration) {
 		d = 0
 	}
 	e.seq++
-	tm.deadline, tm.seq, tm.armed = e.now+int64(d), e.seq, true
+	dl := e.now + int64(d)
+	if dl < e.now { // overflow: "never"
+		dl = 1<<63 - 1
+	}
+	tm.deadline, tm.seq, tm.armed = dl, e.seq, true
 }
 
 func NewTimer(d time.Duration) *Timer {
